@@ -330,3 +330,63 @@ def gen_directed(rng):
 def generate_directed(n, seed):
     rng = random.Random(seed)
     return [gen_directed(rng) for _ in range(n)]
+
+
+def gen_gcblock(rng):
+    """The collector against open transactions: iterators on two tables, one of them lagging (its table's
+    graveyard is not collectable), a writer holding a table, a consumer that triggers a collection run during
+    the schedule, another writer on the table the collector needs."""
+    g = DBGen(rng, "sched")
+    a, b = g.newtable(), g.newtable()
+    extra = g.newtable() if rng.random() < 0.3 else None
+    tx = g.begin([a, b])
+    for t in (a, b):
+        for i in range(3):
+            g.add(op="insert", tx=tx, t=t, obj=simple_obj(g, i, rng.randint(1, 9)), guard=0, gsym="", w=0)
+    ia = g.changes(tx, a)
+    ib = g.changes(tx, b)
+    g.commit(tx)
+    s = g.snap()
+    g.next(ia, src=g.snap_src(s), take=-1)
+    g.next(ia, src=g.snap_src(s), take=-1)
+    lag_b = rng.random() < 0.8
+    if not lag_b:
+        g.next(ib, src=g.snap_src(s), take=-1)
+    tx = g.begin([a, b])
+    g.add(op="delete", tx=tx, t=a, obj=simple_obj(g, 0, 0), guard=0, gsym="", w=0)
+    g.add(op="delete", tx=tx, t=b, obj=simple_obj(g, 0, 0), guard=0, gsym="", w=0)
+    g.commit(tx)
+    setup = g.ops
+    g.ops = []
+    hold = rng.choice([b, b, a])
+    other = a if hold == b else b
+    # U holds one table; I consumes the deletion on table a (mark -> collection run); W writes the other table
+    g.nsnap += 1
+    snap_i = g.nsnap
+    consumer = ia
+    actors = [dict(name="U", prog=writer_prog(g, rng, [hold], ntx=1, marker=1)),
+              dict(name="I", prog=[dict(op="snap", id=snap_i),
+                                   dict(op="next", it=consumer, src={"kind": "snap", "id": snap_i}, take=-1, w=g.chan()),
+                                   dict(op="next", it=consumer, src={"kind": "snap", "id": snap_i}, take=-1, w=g.chan())]),
+              dict(name="W", prog=writer_prog(g, rng, [other], ntx=1, marker=4))]
+    g.snaps[snap_i] = dict(g.tgen)
+    g.iters[consumer]["lastgen"] = g.tgen[a]
+    sched = ["U"] * rng.choice([4, 5, 6]) + ["I"] * 4 + ["GC"] * rng.choice([3, 8, 12]) + ["W"] * rng.choice([3, 9, 20])
+    sched += ["GC"] * 3 + ["U"] * 20 + ["GC"] * 20 + ["W"] * 20
+    for w in list(g.wtx):
+        g.wtx.pop(w)
+    s = g.snap()
+    for t in g.tables:
+        g.q(g.snap_src(s), t, "id", "all", [])
+    for it in (ia, ib):
+        s2 = g.snap()
+        g.next(it, src=g.snap_src(s2), take=-1)
+        g.next(it, src=g.snap_src(s2), take=-1)
+    g.iterclose(ia)
+    g.iterclose(ib)
+    return [dict(op="sched", setup=setup, actors=actors, schedule=sched, finish=g.ops, gc=True, nilempty=False)]
+
+
+def generate_gcblock(n, seed):
+    rng = random.Random(seed)
+    return [gen_gcblock(rng) for _ in range(n)]
